@@ -89,7 +89,10 @@ func respScenarios(tier string) []*mc.Scenario {
 			req("subscribe.test.m.", 0), req("get.test.*", 0), req("subscribe.test.m?q=1", 0),
 			reqp("unsubscribe.test.m", `{"count":"x"}`, 0), reqp("unsubscribe.test.m", `{"count":0}`, 0),
 			reqp("version", `{"protocol":"2.0.0"}`, 0), reqp("version", `{"protocol":"1.x"}`, 0),
-			req("auth.test.m.login", 0), req("new.test.c", 0), req("call.test.m. ", 0), req("unsubscribe.test.zzz", 0))},
+			req("auth.test.m.login", 0), req("new.test.c", 0), req("call.test.m. ", 0), req("unsubscribe.test.zzz", 0),
+			// ids that a float64 cannot hold: the response must carry the very same id
+			mc.ClientReq{Method: "get.test.x", ID: 9007199254740993}, mc.ClientReq{Method: "subscribe.test.y", ID: 9223372036854775807},
+			mc.ClientReq{Method: "call.test.y.set", Params: `{}`, ID: 4611686018427387905})},
 		Menu: func(w *mc.World, r *mc.Req) []mc.Outcome {
 			if subjectIs(r, "auth.") || subjectIs(r, "call.") {
 				return []mc.Outcome{w.OK(r), mc.ResErr("system.methodNotFound"), mc.Timeout(), mc.Raw("resource", `{"resource":{"rid":"test.x"}}`)}
@@ -178,6 +181,30 @@ func countScenarios(tier string) []*mc.Scenario {
 			return nil
 		},
 	})
+	// new requests of legacy clients subscribe the created resource too
+	for _, ver := range []string{"", "1.1.1"} {
+		name := "count/legacy-new/none"
+		if ver != "" {
+			name = "count/legacy-new/" + ver
+		}
+		out = append(out, &mc.Scenario{
+			Name: name, Props: props, Init: func(w *mc.World) {
+				basicInit(w)
+				w.Svc.Call = func(name, method, payload string) string {
+					if method == "new" {
+						return `{"resource":{"rid":"test.y"}}`
+					}
+					return `{"result":{"ok":true}}`
+				}
+			}, Monitors: allMons(),
+			Conns: []mc.ConnSpec{conn(ver,
+				syncReq("new.test.c", `{"n":1}`, 0), syncReq("new.test.c", `{"n":2}`, 0), syncReq("call.test.y.set", "", 0),
+				syncReq("unsubscribe.test.y", `{"count":2}`, 2), syncReq("unsubscribe.test.y", "", 2))},
+			Threads: []mc.Thread{{Name: "svc", Ops: []mc.Op{
+				op("y.n=5", 1, func(w *mc.World) { w.Svc.Change("test.y", "n", `5`) }),
+			}}},
+		})
+	}
 	out = append(out, &mc.Scenario{
 		Name: "count/revoke", Props: props, Init: basicInit, Monitors: allMons(),
 		Conns: []mc.ConnSpec{conn(latest,
